@@ -9,6 +9,16 @@ BASE = ("Trusted: Coq 8.16.1 kernel (vm_compute; no native_compute), no axioms (
 TECH = "machine-checked proof (Coq) + translator-regenerated tables + model/implementation correspondence"
 
 CLAIMS = {
+    "C16": ("Coq theorem for ALL lists of --handler items (not only the 2*2^7 subsets): the model of requested_handlers/filter_by_name over the handler table regenerated from HANDLERS "
+            "equals the documented selection function (defaults; positive list = exactly the listed, table order; negative list = defaults minus listed; mixed/unknown/empty = error; "
+            "strict iff a list was given); make_handlers = the initialisable selected handlers, fatal iff strict and one cannot initialise; an unselected handler is never run. "
+            "Tied to the code by running the real CLI on every subset (positive and negative), odd forms, with/without epoch, split options and -j2 on a tree with one dirty file per "
+            "handler, comparing which files changed with the documented function and with the extracted model.",
+            "Modelled, not verified: clap parsing; each handler's initialize() condition is modelled (gzip: u32 epoch; zip/jar: DOS range) and validated by the runs.", "DESIGN.md section 5-C16"),
+    "C17": ("Coq theorem for all flag and counter values: the verdict formula regenerated from the if/else-if chain at the end of main() equals the documented contract "
+            "((check or not brp) and errors>0) or (check and (unsupported>0 or modified>0)), with the three documented corollaries and 'clean files never fail'; totals are sums. "
+            "Tied to the code by the translator and by running all 64 mode/content combinations (serial and -j2) on engineered trees, comparing the exit status with the contract and the model.",
+            "Modelled, not verified: the counters themselves (C14); zip/jar under --check pending (F1).", "DESIGN.md section 5-C17"),
     "C09": ("Coq theorem over all file-system states, handlers, handler results and single injected faults (Fs.v/Helper.v model of InputOutputHelper): whenever a real run reports "
             "Replaced for a single-link file, the path names a new regular inode holding the handler's output with the original 12-bit mode and ns mtime, owner as far as chown was "
             "permitted, temp name gone, all other names as before; plus the kernel rule showing the chown/chmod order matters. Tied to the code by strace'd CLI runs (operation order, "
